@@ -118,6 +118,7 @@ class Unit:
         self.canaries = []     # generated `requires P ensures false` vacuity canaries (must fail)
         self.clauses = []      # tagged contract clauses: dict(fn, tags, label, out_line)
         self.missing = []      # functions the contract requires to exist but that are absent from the source
+        self.lost_hints = []   # overlay proof hints / invariants whose anchor statement no longer exists (unit is "degraded")
 
     def emit(self, text, origin):
         for k, ln in enumerate(text.split("\n")):
@@ -130,7 +131,13 @@ class Unit:
             self.map.append(o)
 
 
+STD_RULES = ["R7", "R20", "R27", "R29", "R30", "R31"]   # definitional unfoldings of std combinators, safe to apply anywhere
+
+
 def apply_rules(text, names, unit, where):
+    names = list(names)
+    if "STD" in names:
+        names = [n for n in names if n != "STD"] + [r for r in STD_RULES if r not in names]
     for r in names:
         if not r:
             continue
@@ -147,6 +154,7 @@ def extract_unit(name, repo=None):
     repo = repo or REPO
     tpath = os.path.join(VERIF, "units", name + ".rs")
     unit = Unit(name)
+    unit.repo = repo
     rulesmod.LITS.clear()
     _process(unit, tpath, repo)
     return unit
@@ -352,7 +360,8 @@ def _emit_body(unit, fnrec, dirs):
                 loops = _loops(body)
             n = int(m.group(2))
             if n < 1 or n > len(loops):
-                raise Inconclusive("lost anchor: loop %d of %s (found %d loops)" % (n, fnrec["qual"], len(loops)))
+                unit.lost_hints.append("loop %d of %s (found %d loops)" % (n, fnrec["qual"], len(loops)))
+                continue
             inserts.append((loops[n - 1][1], " " + m.group(3).strip() + " ", tl))
             continue
         m = re.match(r'^(before|after)\s+"((?:[^"\\]|\\.)*)"(?:\s*#(\d+))?\s*:\s*(.*)$', d, re.S)
@@ -361,9 +370,11 @@ def _emit_body(unit, fnrec, dirs):
             occ = [x.start() for x in re.finditer(re.escape(anchor), body)]
             want = int(m.group(3)) if m.group(3) else None
             if want is None and len(occ) != 1:
-                raise Inconclusive("lost anchor: `%s` occurs %d times in %s" % (anchor, len(occ), fnrec["qual"]))
+                unit.lost_hints.append("`%s` occurs %d times in %s" % (anchor, len(occ), fnrec["qual"]))
+                continue
             if want is not None and want > len(occ):
-                raise Inconclusive("lost anchor: `%s` #%d in %s" % (anchor, want, fnrec["qual"]))
+                unit.lost_hints.append("`%s` #%d in %s" % (anchor, want, fnrec["qual"]))
+                continue
             off = occ[(want or 1) - 1]
             if m.group(1) == "after":
                 off += len(anchor)
@@ -483,7 +494,8 @@ def write_unit(unit, outdir):
         f.write("\n".join(unit.out_lines))
     with open(os.path.join(outdir, unit.name + ".map.json"), "w") as f:
         json.dump({"map": unit.map, "fns": unit.fns, "items": unit.items, "rules": unit.rule_counts,
-                   "lemmas": unit.lemmas, "canaries": unit.canaries, "clauses": unit.clauses, "missing": unit.missing}, f)
+                   "lemmas": unit.lemmas, "canaries": unit.canaries, "clauses": unit.clauses, "missing": unit.missing,
+                   "lost_hints": unit.lost_hints}, f)
     return p
 
 
